@@ -1,3 +1,38 @@
-"""vcheck configuration of work group I3."""
+"""vcheck configuration of work group I3 (top-level composition): PROPS = {"Cxx": {"families": [...]}}
 
-PROPS = {}
+Only families are registered here; bin/vconfig.py keeps the other keys (rule, explanation, assumptions, …) of the
+groups loaded earlier.
+
+i3.web : RAW inputs — 1-3 lists given as BYTES (blocking rules, plain / important / document-level exceptions
+         ($elemhide $generichide $jsinject $document $urlblock $genericblock $content $extension), $domain rules,
+         $badfilter twins, $stealth / $dnsrewrite / $popup rules, /regex/ rules, cosmetic rules, comments, hosts lines,
+         invalid and mutated lines, padding, CRLF, ids incl. negative and extreme, IgnoreCosmetic on/off) + URL string +
+         source URL string (mostly hosts the lists are written about, so that referrer-level exceptions and $domain
+         decide) + request type + cosmetic hostname + psl / netip tables (NO pattern, rewrite or shortcut table);
+         Go = urlfilter.NewEngine(storage).MatchRequest(rules.NewRequest(url, src, type)): class of GetBasicResult,
+         BasicRule / DocumentRule texts, GetCosmeticOption, Engine.GetCosmeticResult(host, option) selector sets;
+         model = engineMatchRequest (UF/Compose3/WebTop.lean: NewRequest model -> storage scan with the modelled NewRule
+         -> engine -> MatchAll twice -> NewMatchingResult) + getCosmeticOption + engineCosmeticResult;
+         spec = classWeb over the matching lines / referrer matching lines (c06_top), specCosmeticOption of the
+         modifiers WRITTEN in the basic rule's text (c16_top), specCosmeticResult for that option (c16_top_cosmetic);
+         the basic / document texts must be matching lines.
+i3.dns : RAW inputs — 1-3 lists given as BYTES (host-level rules with $important / $dnstype / $ctag / $client /
+         $denyallow, $dnsrewrite rules of many shapes with empty / valued / important exceptions and $badfilter twins,
+         hosts lines v4/v6, bare domains, non-host-level rules, noise) + DNSRequest fields (hostname mostly one the
+         lists are written about, record type, client name / address, sorted tags), several requests on ONE engine
+         so that the request pool recycles; Go = NewDNSEngine(storage).MatchRequest(dReq) + res.DNSRewrites();
+         model = dnsEngineMatchRequest on a STALE pooled request (UF/Compose3/DnsTop.lean) + dnsRewrites;
+         spec = specDns over the lines parsed one by one for the request the fields alone describe + the reference
+         of C09 over its network rules (c02_top, c02_top_rewrites, c02_top_pool).
+"""
+
+_WEB = fam("i3.web", 300, 5000, seeds=4)
+_DNS = fam("i3.dns", 300, 5000, seeds=4)
+
+PROPS = {
+    "C06": {"families": [_WEB]},
+    "C16": {"families": [_WEB]},
+    "C17": {"families": [_WEB]},
+    "C02": {"families": [_DNS]},
+    "C09": {"families": [_DNS]},
+}
